@@ -389,3 +389,53 @@ Theorem C13_gen_operators :
     base_mul a b = Some (Ensemble [a; b], tt) /\
     base_xor a b = Some (Mesh [a; b], tt).
 Proof. exact gen_operators_eq. Qed.
+
+(* the constructors with optional / defaulted arguments, translated from the source (tools/harness/gen_pyast.py accepts
+   `size=None`-style parameters as [option nat]; the integer may only be used under an `is None` test): the size set by
+   FilterGenerator.__init__ / ResampleGenerator.__init__ is the model's [csize] -- the given size if any, else the
+   underlying generator's -- and the literal defaults in the signature are the ones the model's constructor forms assume *)
+Theorem C13_gen_filter_init :
+  forall (g : gen) (m : nat) (size : option nat) (upd : bool),
+    filter_init (csize g) size upd = Some (csize (Filter g m size upd), upd).
+Proof. exact gen_filter_init_eq. Qed.
+
+Theorem C13_gen_resample_init :
+  forall (g : gen) (r : nat) (size : option nat) (repl : bool),
+    resample_init (csize g) size repl = Some (csize (Resample g r size repl), repl).
+Proof. exact gen_resample_init_eq. Qed.
+
+Theorem C13_gen_init_defaults :
+  filter_init_default_size = @None nat /\ filter_init_default_update_size = true /\
+  resample_init_default_size = @None nat /\ resample_init_default_replacement = false.
+Proof. exact gen_init_defaults. Qed.
+
+(* PredefinedGenerator: the constructor raises exactly when the model's [built] is false (no column: IndexError; columns
+   of different lengths: ValueError); otherwise size = length of the first column and the stored value -- which
+   get_examples returns unchanged on every call -- is the columns themselves (a single column as a bare tensor), whatever
+   mixture of tensors and plain sequences the user passed ([isT] arbitrary) *)
+Theorem C13_gen_predefined :
+  forall (isT : list Z -> bool) (cs : list (list Z)),
+    predefined_init isT cs =
+    (if built (Predefined cs)
+     then Some (csize (Predefined cs), match single_or FL cs with (FT, [t]) => PT t | (_, l) => PL l end)
+     else None)
+    /\ forall v, predefined_get_examples v = Some (v, tt).
+Proof. exact gen_predefined_eq. Qed.
+
+Example C13_gen_predefined_nonvacuous :
+  predefined_init (fun _ => false) [[1; 2]; [3; 4]]%Z = Some (2, PL [[1; 2]; [3; 4]]%Z) /\
+  predefined_init (fun _ => true) [[1; 2]; [3]]%Z = None /\
+  filter_init 5 (Some 3) false = Some (3, false) /\ resample_init 5 None true = Some (5, true).
+Proof. repeat split. Qed.
+
+(* ... and that stored value is what the model's [sample] yields at EVERY call index k ("predefined returns the same
+   points forever", now for the generated constructor + get_examples rather than for the hand model only) *)
+Theorem C13_gen_predefined_sample :
+  forall (isT : list Z -> bool) (cs : list (list Z)) (sz : nat) (v : pyv)
+         (draw : nat -> nat -> list row) (mask : nat -> nat -> list bool)
+         (rperm rint : nat -> nat -> list nat) (tvec : nat -> row -> row) (tmulti : nat -> list row -> out),
+    predefined_init isT cs = Some (sz, v) ->
+    built (Predefined cs) = true /\ sz = csize (Predefined cs) /\
+    forall k, predefined_get_examples v = Some (v, tt) /\
+              sample draw mask rperm rint tvec tmulti (Predefined cs) k = Some (out_of_pyv v).
+Proof. exact gen_predefined_sample. Qed.
